@@ -1062,4 +1062,132 @@ theorem runActs_trace_mono (acts : List Act) (x : Ctx) (s : S) (ev : Ev) (h : ev
     | seed n => exact ih _ hb
     | draw => exact ih _ (List.mem_cons_of_mem _ hb)
 
+
+/-! ### Every resume event ever logged carries the exact beat -/
+
+/-- All `resume` events in the trace belong to routines that have been played, and carry
+    `startBeats + Σ deltas of the yields before the position they resumed at`. -/
+structure TraceExact (s : S) : Prop where
+  noPaused : ∀ r, (s.rts r).state ≠ .paused
+  hist : ∀ r pc c b t, Ev.resume r pc c b t ∈ s.trace →
+    (s.rts r).state ≠ .init ∧ b = (s.rts r).startBeats + sumY ((s.rts r).script.take pc)
+
+/-- Routine records change in state only away from Init/Paused-free ways, keeping script and
+    startBeats of every routine that is not Init; the trace gains only non-`resume` events. -/
+theorem TraceExact.of_step {s s' : S} (h : TraceExact s)
+    (hr : ∀ r, (s'.rts r).script = (s.rts r).script ∧ (s'.rts r).state ≠ .paused ∧
+      ((s.rts r).state ≠ .init → (s'.rts r).state ≠ .init ∧ (s'.rts r).startBeats = (s.rts r).startBeats))
+    (ht : ∀ ev ∈ s'.trace, ev ∈ s.trace ∨ ∀ r pc c b t, ev ≠ .resume r pc c b t) : TraceExact s' := by
+  refine ⟨fun r => (hr r).2.1, ?_⟩
+  intro r pc c b t hev
+  rcases ht _ hev with h1 | h1
+  · obtain ⟨h2, h3⟩ := h.hist r pc c b t h1
+    obtain ⟨h4, h5⟩ := (hr r).2.2 h2
+    exact ⟨h4, by rw [(hr r).1, h5]; exact h3⟩
+  · exact absurd rfl (h1 r pc c b t)
+
+theorem TraceExact.same {s s' : S} (h : TraceExact s) (hr : s'.rts = s.rts) (ht : s'.trace = s.trace) :
+    TraceExact s' :=
+  h.of_step (fun r => by rw [hr]; exact ⟨rfl, h.noPaused r, fun hh => ⟨hh, rfl⟩⟩)
+    (fun ev hev => Or.inl (by rw [ht] at hev; exact hev))
+
+theorem TraceExact.emit {s : S} (h : TraceExact s) (ev : Ev) (hev : ∀ r pc c b t, ev ≠ .resume r pc c b t) :
+    TraceExact (s.emit ev) :=
+  h.of_step (fun r => ⟨rfl, h.noPaused r, fun hh => ⟨hh, rfl⟩⟩)
+    (fun e he => by
+      rcases List.mem_cons.mp he with rfl | he
+      · exact Or.inr hev
+      · exact Or.inl he)
+
+theorem TraceExact.setRt {s : S} (h : TraceExact s) (r : Nat) (R : Rt)
+    (h1 : R.script = (s.rts r).script) (h2 : R.state ≠ .paused)
+    (h3 : (s.rts r).state ≠ .init → R.state ≠ .init ∧ R.startBeats = (s.rts r).startBeats) :
+    TraceExact (s.setRt r R) := by
+  refine h.of_step (s' := s.setRt r R) ?_ (fun ev hev => Or.inl hev)
+  intro i
+  by_cases hi : i = r
+  · subst hi; rw [setRt_rts_same]; exact ⟨h1, h2, h3⟩
+  · rw [setRt_rts_ne _ _ _ _ hi]; exact ⟨rfl, h.noPaused i, fun hh => ⟨hh, rfl⟩⟩
+
+theorem TraceExact.add {s : S} (h : TraceExact s) (c : Clk) (b : Rat) (r : Nat) :
+    TraceExact (s.add c b r) := by
+  refine h.of_step (s' := s.add c b r) ?_ (fun ev hev => Or.inl hev)
+  intro i
+  by_cases hi : i = r
+  · subst hi; rw [add_rts_same]; exact ⟨rfl, h.noPaused i, fun hh => ⟨hh, rfl⟩⟩
+  · rw [add_rts_ne _ _ _ _ _ hi]; exact ⟨rfl, h.noPaused i, fun hh => ⟨hh, rfl⟩⟩
+
+theorem TraceExact.play {s : S} (h : TraceExact s) (b r : Nat) (c : Clk) : TraceExact (s.play b r c) := by
+  have hc : TraceExact (s.create b r) := by
+    unfold S.create; split
+    · exact h
+    · exact h.setRt r _ rfl (h.noPaused r) (fun hh => ⟨hh, rfl⟩)
+  unfold S.play S.playNow
+  split
+  · simp only [S.schedNow]
+    apply TraceExact.add
+    refine hc.setRt r _ rfl (by simp) ?_
+    intro hne
+    rename_i hst
+    rcases hst with h1 | h1
+    · exact absurd h1 hne
+    · exact absurd h1 (hc.noPaused r)
+  · exact hc
+
+theorem runActs_traceExact (acts : List Act) (x : Ctx) {s : S} (h : TraceExact s)
+    (hacts : ∀ a ∈ acts, a.plain = true) : TraceExact (runActs s x acts) := by
+  induction acts generalizing s with
+  | nil =>
+    unfold runActs
+    exact h.setRt x.rid _ rfl (by simp) (fun _ => ⟨by simp, rfl⟩)
+  | cons a rest ih =>
+    have ih' := fun {s : S} (h : TraceExact s) => ih h (fun a ha => hacts a (by simp [ha]))
+    have hb : TraceExact (s.bumpPc x.rid) :=
+      h.setRt x.rid _ rfl (h.noPaused x.rid) (fun hh => ⟨hh, rfl⟩)
+    have hpl := hacts a (by simp)
+    unfold runActs
+    simp only
+    cases a with
+    | yield d => exact hb.add _ _ _
+    | hang => exact hb
+    | log => exact ih' (hb.emit _ (by intros; simp))
+    | send b => exact ih' (hb.emit _ (by intros; simp))
+    | draw => exact ih' ((hb.emit _ (by intros; simp)).same rfl rfl)
+    | seed n => exact ih' (hb.setRt x.rid _ rfl (hb.noPaused x.rid) (fun hh => ⟨hh, rfl⟩))
+    | spawn r c => exact ih' (hb.play _ _ _)
+    | setTempo i v =>
+      simp only; split
+      · exact ih' (hb.same rfl rfl)
+      · exact ih' (hb.emit _ (by intros; simp))
+    | stop r =>
+      simp only
+      split
+      · exact ih' (hb.emit _ (by intros; simp))
+      · split
+        · exact ih' hb
+        · exact ih' (hb.setRt r _ rfl (by simp) (fun _ => ⟨by simp, rfl⟩))
+    | pause r => simp [Act.plain] at hpl
+    | resume r => simp [Act.plain] at hpl
+    | wait c => simp [Act.plain] at hpl
+    | signal c => simp [Act.plain] at hpl
+
+/-- Executing a pending task whose beat obeys the law (`Exact`) keeps `TraceExact`. -/
+theorem exec_traceExact {s : S} (h : TraceExact s) (hE : Exact s) {e : Entry} (he : e ∈ s.pend) :
+    TraceExact (s.exec e) := by
+  have h1 : TraceExact { s with pend := s.pend.filter (fun e' => !(e' == e)), mainSecs := s.secsOf e } :=
+    h.same rfl rfl
+  unfold S.exec
+  simp only
+  split
+  · rename_i hst
+    apply runActs_traceExact
+    · refine ⟨h.noPaused, ?_⟩
+      intro r pc c b t hev
+      rcases List.mem_cons.mp hev with heq | hold
+      · cases heq
+        exact ⟨by show (s.rts e.rid).state ≠ .init; rw [hst]; simp, hE.exact e he⟩
+      · exact h.hist r pc c b t hold
+    · intro a ha; exact hE.plain e.rid a (List.mem_of_mem_drop ha)
+  · exact h1
+
 end Sc3Verif.C05
